@@ -446,7 +446,9 @@ namespace occa {
       ++it;
 
       // If we're merging two json objects, recursively merge them
-      if (val.isObject() && has(key)) {
+      // [key] is a map key, not a path: it may contain '/'
+      if (val.isObject() &&
+          (value_.object.find(key) != value_.object.end())) {
         // Reuse prefetch
         json &oldVal = value_.object[key];
         if (oldVal.isObject()) {
